@@ -774,6 +774,8 @@ impl LdapConnAsync {
 
     async fn turn(mut self, mode: LoopMode) -> Result<Self> {
         loop {
+            #[cfg(ldap3_verif)]
+            crate::verif::observe_maps(&self.resultmap, &self.searchmap);
             tokio::select! {
                 req_id = self.id_scrub_rx.recv() => {
                     if let Some(req_id) = req_id {
